@@ -236,6 +236,8 @@ impl<'t, D: Distance> ImmutableLeafs<'t, D> {
 
             let ptr = bytes.as_ptr();
             let addr = ptr as usize;
+            #[cfg(feature = "verif-hooks")]
+            let addr = crate::verif::canon_addr(addr, leafs.len(), bytes.len());
             let start = addr / page_size;
             let end = (addr + bytes.len()) / page_size;
 
